@@ -175,6 +175,27 @@ def run_tlc(module, cfg, metadir, env=None, workers=16, extra=(), timeout=3600, 
     return res
 
 
+def run_apalache(module, init, inv, length, outdir, timeout=600):
+    """apalache-mc check --init --inv --length on SPEC/<module>.tla; returns (outcome, text) with outcome in
+    {"NoError", "Error", "ToolFailure"}."""
+    outdir = Path(outdir)
+    outdir.mkdir(parents=True, exist_ok=True)
+    cmd = ["apalache-mc", "check", "--init=%s" % init, "--inv=%s" % inv, "--length=%d" % length,
+           "--out-dir=%s" % outdir, module + ".tla"]
+    try:
+        p = subprocess.run(cmd, cwd=str(SPEC), stdout=subprocess.PIPE, stderr=subprocess.STDOUT, text=True, timeout=timeout)
+    except (subprocess.TimeoutExpired, FileNotFoundError) as ex:
+        return "ToolFailure", repr(ex)
+    finally:
+        shutil.rmtree(outdir, ignore_errors=True)
+    out = p.stdout
+    if "The outcome is: NoError" in out and "EXITCODE: OK" in out:
+        return "NoError", out
+    if "The outcome is: Error" in out or "violat" in out.lower():
+        return "Error", out
+    return "ToolFailure", out
+
+
 class Ctx:
     def __init__(self, pid, tier, seed, replay=None):
         self.pid, self.tier, self.seed, self.replay = pid, tier, seed, replay
